@@ -26,7 +26,10 @@ def run(ctx, drv):
         tr, alg, err = runs.execute(cfg, budgets, collect_steps=False)
         inp = runs.describe(cfg, budgets=budgets)
         if err is not None:
-            runs.note_aborted(ctx, cfg, err)
+            if err.startswith("RunTimeout"):
+                ctx.fail("run-does-not-terminate", inp, err[:200], "run(N) returns", f"core.Algorithm.run ({cfg['name']})")
+            else:
+                runs.note_aborted(ctx, cfg, err)
             continue
         ctx.count("runs_" + cfg["name"])
         segs = runs.segments(tr)
